@@ -139,7 +139,7 @@ func genSighupScenario(t *rapid.T) Scenario {
 
 func TestE2ESighup(t *testing.T) {
 	vh.Run(t, vh.Spec[Scenario]{
-		Name: "e2e-sighup", Gen: genSighupScenario, Run: runSighup, Quick: 3, Thorough: 40, ShrinkSeconds: 20,
+		Name: "e2e-sighup", Gen: genSighupScenario, Run: runSighup, Quick: 3, Thorough: 15, ShrinkSeconds: 20,
 		Rule: "reload scenarios of the e2e-reload family, one per child process, in which every reload is triggered by a real SIGHUP sent by the parent with kill(2) at the moment the scenario schedules it (the child waits until the agent's own signal handler has counted a reload); oracle as in e2e-reload, evaluated in the child; non-trivial = at least one signal was delivered",
 	})
 }
